@@ -153,6 +153,24 @@ CHECKS["C10"] = dict(
          "execution; the monitors (tools/simmon.py) are search tools, not proof.",
     engine="lean+simdrv")
 
+CHECKS["C18"] = dict(
+    technique="Lean 4 theorems over hand-written models of the sort / median / quartile / histogram / ACF loops + differential "
+              "correspondence with the library on integer-valued data (exact) + Monitor.C18 on the implementation's answers",
+    text='Props/C18.lean (25 theorems, unbounded sizes): the heapsort models (single array and the (x,t,w)-triple version, same index arithmetic as the C loops) return an ascending permutation of whole samples; adds stay in bounds through any number of doublings; copies are exact (and the shipped copy is proved to overflow on the next add); median and duration-weighted median satisfy the at-most-half below / above definition; five-number summaries are ordered and inside the data range from n = 1; every sample lands in exactly one of nb+2 histogram bins and the bins sum to n / the total weight; ACF is 1 at lag 0, shift invariant, and scale invariant when the absolute variance threshold is not crossed (known finding otherwise). The hand-written models are tied to the code by running the same integer-valued inputs (sizes 1..70 and around the array doubling thresholds, duplicates, constant / sorted / reverse data, dominant and zero durations, every bin count, auto-scaling, out-of-range samples) through the real library (rel and ASan/UBSan builds) and the compiled model and comparing sorted arrays, copies, medians, printed five-number summaries and the captured histogram struct exactly, ACF under a 1e-9 tolerance (labelled test).',
+    design_ref="DESIGN.md §4 C18; notes/C18.md",
+    note=LEVEL_NOTE_COMMON + "C18: ld --wrap capture and the %#8.4g print-out as observation channel for histograms and five-number "
+         "summaries; two known findings (ACF absolute variance threshold; ACF can leave [-1,1]).",
+    engine="lean+statdrv2")
+
+CHECKS["C20"] = dict(
+    technique="Lean 4 theorems (invariant over all alloc/free/store programs, any number of expansions) + regenerated size arithmetic + "
+              "exact-state differential correspondence with src/cmi_mempool.c, also under ASan/UBSan",
+    text="For a model of cmi_mempool.c/.h (free list threaded through object memory word for word as in the C code, chunk list with abstract realloc whose result must be used and whose byte size must cover the entries, every access bounds-checked) Lean proves for EVERY client program (any list of alloc / free / store operations on objects the client holds), every object size that is a positive multiple of 8, every requested chunk population > 0, every page size accepted by cmi_aligned_alloc and every CHUNK_LIST_SIZE > 0, for pools made by create+initialize and for CMI_MEMPOOL_STATIC_INIT pools (first-use initialisation inside expand): the run never faults (`expand_ok`: no access outside the chunk list at any chunk count, no access outside a chunk, no failed assert); the objects the client holds are pairwise distinct slots, hence — chunks being page-aligned disjoint blocks — 8-aligned, inside their chunk with obj_sz bytes and with pairwise disjoint byte ranges; free list and held objects partition all slots of all chunks and an allocation never returns a held object (a returned one may come back, LIFO); alloc / free / expand write only the first word of objects that are free, a store changes one word, so every word a client stored is still there as long as it holds the object (`contents_stable`, end to end over any run). The shipped expand is proved to fault at the expansion where chunk_list_cnt reaches chunk_list_len, from any invariant state, and both half repairs are proved insufficient. The size arithmetic and the release asserts of cmi_mempool_initialize and CHUNK_LIST_SIZE are re-extracted from the C AST / preprocessor on every run and proved equal to the model's. Everything else of the model is tied to the current source by exact-state differential execution (struct fields, canonicalised chunk list, next_obj, free-list prefix after every operation) on generated scripts that cross 1, objects-per-chunk, 63/64/65, 127/128/129 and 191/192/193 chunks with interleaved frees, on dynamic, static-initialiser and the library's own thread-local pools, in a release-like and an ASan+UBSan build; the C driver is also the monitor of the property on the real pointers (patterns, alignment, chunk bounds, overlap).",
+    design_ref="DESIGN.md §4 C20; notes/C20.md",
+    note=LEVEL_NOTE_COMMON + "C20: chunks are page-aligned disjoint blocks (aligned_alloc), realloc may move and its result must be used "
+         "(modelled abstractly); tools/gen_pool.py (size arithmetic, CHUNK_LIST_SIZE).",
+    engine="lean+pooldrv")
+
 PENDING = {
 }
 
@@ -162,6 +180,11 @@ ENGINES = [
     dict(name="evdrv", path="harness/evdrv.c", serves_properties=["C01"], kind_free_text="C driver for the event-kernel script language (ops from outside and inside actions), observable log"),
     dict(name="ctxdrv", path="harness/ctxdrv.c", serves_properties=["C03"], kind_free_text="C/asm driver: initial frame dump, first-entry / return probes, bookkeeping scripts through the real coroutine API"),
     dict(name="simdrv", path="harness/simdrv.c", serves_properties=["C04","C05","C06","C07","C08","C09","C10","C11","C12","C13","C14"], kind_free_text="C scenario interpreter for the process layer (scripted processes over resources, pools, buffers, queues, conditions) against the real library"),
+    dict(name="pooldrv", path="harness/pooldrv.c", serves_properties=["C20"], kind_free_text="C driver: alloc/free scripts on real memory pools, exact state + pattern/alignment/overlap monitor"),
+    dict(name="statdrv2", path="harness/statdrv2.c", serves_properties=["C18"], kind_free_text="C driver: datasets / time series sort, copy, median, five-number, histogram (captured struct), ACF"),
+    dict(name="statdrv", path="harness/statdrv.c", serves_properties=["C17"], kind_free_text="C driver: data summaries and weighted summaries with FP exception flags"),
+    dict(name="expdrv", path="harness/expdrv.c", serves_properties=["C19"], kind_free_text="C driver: cimba_run_experiment with per-index counters, sequence log and result digests"),
+    dict(name="rngdrv", path="harness/rngdrv.c", serves_properties=["C15"], kind_free_text="C driver: line protocol over the cmb_random API, runs on fresh threads"),
     dict(name="hhdrv", path="harness/hhdrv.c", serves_properties=["C02", "C06"], kind_free_text="C driver for exact-state correspondence of cmi_hashheap.c with the Lean model"),
 ]
 
